@@ -191,12 +191,19 @@ def build(case):
         nodes = gen.build(t, f, lambda i: pool[labs[i]])
         return t, nodes
     t = gen.ext_classes()["XTree"]("t") if case.get("ext") else Tree("t")
+    kindf = None
+    if case.get("typed") and not case.get("ext"):
+        # a typed source: its list-of-dicts form describes the same nodes (data, custom ids); kinds are not part of this form
+        from nutree.typed_tree import TypedTree
+
+        t = TypedTree("t")
+        kindf = lambda i: "kab"[i % 3]  # noqa: E731
     if fl in ("str", "emptied", "dupdoc"):
         labs = gen.clone_labeling(rng, f, ["a", "b", "c", "d"]) or [f"n{i}" for i in range(n)]
-        nodes = gen.build(t, f, lambda i: labs[i])
+        nodes = gen.build(t, f, lambda i: labs[i], kind=kindf)
     elif fl == "unicode":
         labs = gen.clone_labeling(rng, f, ["ä", "😀", "a b", 'q"uote', "日本"]) or [f"ü{i}" for i in range(n)]
-        nodes = gen.build(t, f, lambda i: labs[i])
+        nodes = gen.build(t, f, lambda i: labs[i], kind=kindf)
     else:  # explicit ids: (label, id) pairs; siblings get distinct ids; equal data under different ids allowed
         labs, ids = [], []
         for i in range(n):
@@ -212,7 +219,7 @@ def build(case):
                 lab, did, eff = f"n{i}", None, hash(f"n{i}")
             labs.append(lab)
             ids.append(eff)
-        nodes = gen.build(t, f, lambda i: labs[i], data_id=lambda i: None if ids[i] == hash(labs[i]) else ids[i])
+        nodes = gen.build(t, f, lambda i: labs[i], data_id=lambda i: None if ids[i] == hash(labs[i]) else ids[i], kind=kindf)
     return t, nodes
 
 
@@ -388,6 +395,12 @@ def run_case(case, res):
                             return _f(parent, item)
 
                         t2 = attempt(lambda: Tree.from_dict(json.loads(json.dumps(doc)) if variant == "direct" and style == 2 else doc, mapper=deser_rec) if mapper_used else Tree.from_dict(doc))
+                        if case.get("typed") and not mapper_used and not isinstance(t2, tuple):
+                            # called through the class of the source tree (a classmethod): same structure
+                            t2c = attempt(lambda: type(t).from_dict(json.loads(json.dumps(doc))))
+                            res.count("from_dict_via_source_class")
+                            if isinstance(t2c, tuple) or shape(t2c) != shape(t2):
+                                bad.append(f"{type(t).__name__}.from_dict(...) differs from Tree.from_dict(...): {t2c!r}")
                         if mapper_used and not isinstance(t2, tuple):
                             # the mapper is told the parent node of the node being created (the system root for top nodes)
                             built = list(t2)
@@ -471,6 +484,7 @@ def run_shard(spec, res):
                                       "ext": fl in ("str", "unicode", "ids") and k % 4 == 0}, res)
                     if fl in ("str", "unicode", "ids") and n >= 2 and k % 2:
                         run_case({"f": gen.code(f), "flavour": fl, "seed": seed, "style": 0, "ext": True}, res)
+                        run_case({"f": gen.code(f), "flavour": fl, "seed": seed, "style": 0, "typed": True}, res)
                 if res.expired():
                     res.count("exhaustive_cut")
                     res.inconc("enumeration cut by time budget")
